@@ -37,6 +37,11 @@ type Modules struct {
 	// converted nodes. To access the map, use the get/set/ClearEntryCache()
 	// thread-safe functions.
 	entryCache map[Node]*Entry
+	// entryInProgress holds the nodes whose conversion by ToEntry has
+	// started but not finished; meeting one of them again means the schema
+	// refers to itself (e.g. a grouping that uses itself). It is protected
+	// by entryCacheMu.
+	entryInProgress map[Node]bool
 	// mergedSubmodule is used to prevent re-parsing a submodule that has already
 	// been merged into a particular entity when circular dependencies are being
 	// ignored. The keys of the map are a string that is formed by concatenating
@@ -62,6 +67,7 @@ func NewModules() *Modules {
 		typeDict:        newTypeDictionary(),
 		mergedSubmodule: map[string]bool{},
 		entryCache:      map[Node]*Entry{},
+		entryInProgress: map[Node]bool{},
 		pathMap:         map[string]bool{},
 	}
 	return ms
@@ -462,6 +468,28 @@ func (ms *Modules) setEntryCache(n Node, e *Entry) {
 	ms.entryCacheMu.Lock()
 	defer ms.entryCacheMu.Unlock()
 	ms.entryCache[n] = e
+}
+
+// beginEntry records that the conversion of n has started. It returns false
+// if the conversion of n is already in progress.
+func (ms *Modules) beginEntry(n Node) bool {
+	ms.entryCacheMu.Lock()
+	defer ms.entryCacheMu.Unlock()
+	if ms.entryInProgress[n] {
+		return false
+	}
+	if ms.entryInProgress == nil {
+		ms.entryInProgress = map[Node]bool{}
+	}
+	ms.entryInProgress[n] = true
+	return true
+}
+
+// endEntry records that the conversion of n has finished.
+func (ms *Modules) endEntry(n Node) {
+	ms.entryCacheMu.Lock()
+	defer ms.entryCacheMu.Unlock()
+	delete(ms.entryInProgress, n)
 }
 
 // ClearEntryCache clears the entryCache containing previously converted nodes
